@@ -310,6 +310,9 @@ func (r Stack) Swap(i, j int) {
 }
 
 func (r *stack) swap(i, j int) {
+	r.lock()
+	defer r.unlock()
+
 	if ok := 0 <= i && i < r.ulen(); !ok {
 		return
 	} else if ok = 0 <= j && j < r.ulen(); !ok {
@@ -318,9 +321,6 @@ func (r *stack) swap(i, j int) {
 
 	i++
 	j++
-
-	r.lock()
-	defer r.unlock()
 
 	(*r)[i], (*r)[j] = (*r)[j], (*r)[i]
 }
